@@ -8,14 +8,6 @@
 From Coq Require Import Lia.
 From PegV Require Import Utf8 State Syntax Fields FieldsFacts GetFieldsFacts Literals Model Compile.
 
-Fixpoint includes (e : expr) : list name :=
-  match e with
-  | EChoice l | ESeq l => flat_map includes l
-  | EGroup b | EOptional b | EClosure b _ | ENeg b | EPos b => includes b
-  | EInclude n => [n]
-  | _ => []
-  end.
-
 Lemma size_in (a : expr) l : In a l -> expr_size a <= fold_right (fun x s => expr_size x + s) 0 l.
 Proof.
   induction l as [|x l IH]; intros H; [destruct H|]. cbn. destruct H as [->|H]; [lia|]. specialize (IH H). lia.
@@ -35,6 +27,14 @@ Lemma rule_size_le g r : In (GRule r) g -> expr_size (r_def r) <= grammar_size g
 Proof.
   induction g as [|x g IH]; intros H; [destruct H|]. unfold grammar_size in *. cbn.
   destruct H as [->|H]; [lia|]. specialize (IH H). lia.
+Qed.
+
+Lemma find_rule_defined g r : In (GRule r) g -> find_rule g (r_name r) <> None.
+Proof.
+  induction g as [|x g' IH]; intro H; [destruct H|]. cbn. destruct H as [->|H].
+  - rewrite name_eqb_refl. discriminate.
+  - destruct x as [r0|c0|e0]; try (apply IH; exact H).
+    destruct (name_eqb (r_name r0) (r_name r)); [discriminate|apply IH; exact H].
 Qed.
 
 Section Totality.
@@ -190,10 +190,12 @@ Proof.
   - intro H. apply NN in H. destruct (struct_fields (r_name r) (fd :: fd2 :: rest)); discriminate.
 Qed.
 
-Theorem compile_never_overflows lc pv s rank : ranked rank ->
-  forall F, enough rank <= F -> forall i, compile_f c guard lc pv g s F <> GOverflow i.
+Theorem compile_never_overflows lc pv ic cc s rank : ranked rank ->
+  forall F, enough rank <= F -> forall i, compile_f c guard lc pv ic cc g s F <> GOverflow i.
 Proof.
   intros R F HF. unfold compile_f.
+  destruct (if ic then find _ _ else None); [discriminate|].
+  destruct (cc && has_cycle g); [discriminate|].
   assert (K : forall rs idx acc i, (forall x, In x rs -> In x g) ->
               compile_rules c guard lc pv g s F idx rs acc <> GOverflow i).
   { induction rs as [|x rs IH]; intros idx acc i Hsub; cbn; [discriminate|].
@@ -212,6 +214,77 @@ Proof.
   intro i. apply K. auto.
 Qed.
 
+Lemma cycle_rejected_aux lc pv ic s F :
+  has_cycle g = true ->
+  compile_f c guard lc pv ic true g s F = GCycle \/ exists n, compile_f c guard lc pv ic true g s F = GBadIdent n.
+Proof.
+  intro H. unfold compile_f. destruct (if ic then find _ _ else None) as [n|]; [right; eauto|].
+  rewrite H. left. reflexivity.
+Qed.
+
+(* ---- without an include cycle a rank exists -------------------------------------- *)
+Lemma fold_max_ge (f : name -> nat) l m : In m l -> f m <= fold_right (fun x a => Nat.max (f x) a) 0 l.
+Proof. induction l as [|x l IH]; intro H; [destruct H|]. cbn. destruct H as [->|H]; [lia|]. specialize (IH H). lia. Qed.
+
+Lemma fold_max_le (f : name -> nat) l b : (forall m, In m l -> f m <= b) -> fold_right (fun x a => Nat.max (f x) a) 0 l <= b.
+Proof. induction l as [|x l IH]; intro H; cbn; [lia|]. pose proof (H x (or_introl eq_refl)). assert (fold_right (fun x a => Nat.max (f x) a) 0 l <= b) by (apply IH; intros; apply H; right; assumption). lia. Qed.
+
+Lemma fold_max_ext (f h : name -> nat) l : (forall m, In m l -> f m = h m) ->
+  fold_right (fun x a => Nat.max (f x) a) 0 l = fold_right (fun x a => Nat.max (h x) a) 0 l.
+Proof. induction l as [|x l IH]; intro H; cbn; [reflexivity|]. rewrite (H x (or_introl eq_refl)), IH; [reflexivity|]. intros; apply H; right; assumption. Qed.
+
+(* if the depth cut off at k+1 stays within k, the cut-off did not matter *)
+Lemma inc_depth_S k n :
+  inc_depth g (S k) n = fold_right (fun m a => Nat.max (S (inc_depth g k m)) a) 0 (inc_of g n).
+Proof. reflexivity. Qed.
+
+Lemma inc_depth_stable : forall k n, inc_depth g (S k) n <= k -> inc_depth g (S k) n = inc_depth g k n.
+Proof.
+  induction k as [|k IH]; intros n H.
+  - rewrite inc_depth_S in *. destruct (inc_of g n) as [|m l] eqn:El; [reflexivity|].
+    pose proof (fold_max_ge (fun m0 => S (inc_depth g 0 m0)) (m :: l) m (or_introl eq_refl)) as G. cbn beta in G. lia.
+  - rewrite (inc_depth_S (S k)) in H |- *. rewrite (inc_depth_S k n).
+    apply (fold_max_ext (fun m => S (inc_depth g (S k) m)) (fun m => S (inc_depth g k m))).
+    intros m Hin. f_equal. apply IH.
+    pose proof (fold_max_ge (fun m => S (inc_depth g (S k) m)) (inc_of g n) m Hin) as G. cbn beta in G. lia.
+Qed.
+
+Lemma find_rule_unique r : NoDup (rule_names g) -> In (GRule r) g -> find_rule g (r_name r) = Some r.
+Proof.
+  unfold rule_names. induction g as [|x g' IH]; intros ND Hin; [destruct Hin|].
+  cbn in ND. destruct Hin as [->|Hin].
+  - cbn. rewrite name_eqb_refl. reflexivity.
+  - destruct x as [r0|c0|e0]; cbn in ND |- *; try (apply IH; assumption).
+    inversion ND as [|? ? Hn ND']; subst.
+    destruct (name_eqb (r_name r0) (r_name r)) eqn:E; [|apply IH; assumption].
+    exfalso. apply Hn. apply name_eqb_eq in E. rewrite E. apply in_flat_map. exists (GRule r). split; [exact Hin|left; reflexivity].
+Qed.
+
+Theorem acyclic_ranked : NoDup (rule_names g) -> has_cycle g = false -> ranked (inc_depth g (S (length g))).
+Proof.
+  intros ND H r Hin n r' Hn Hf.
+  assert (Hall : forall x, In x (rule_names g) -> inc_depth g (S (length g)) x <= length g).
+  { intros x Hx. unfold has_cycle in H. destruct (Nat.ltb (length g) (inc_depth g (S (length g)) x)) eqn:E.
+    - exfalso. assert (existsb (fun n0 => Nat.ltb (length g) (inc_depth g (S (length g)) n0)) (rule_names g) = true)
+        by (apply existsb_exists; exists x; split; assumption). congruence.
+    - apply Nat.ltb_ge in E. exact E. }
+  destruct (find_rule_in _ _ _ Hf) as [Hin' Hn'].
+  assert (Hr' : In (r_name r') (rule_names g)) by (apply in_flat_map; exists (GRule r'); split; [exact Hin'|left; reflexivity]).
+  rewrite (inc_depth_stable _ _ (Hall _ Hr')).
+  rewrite (inc_depth_S (length g) (r_name r)). unfold inc_of. rewrite (find_rule_unique r ND Hin).
+  pose proof (fold_max_ge (fun m => S (inc_depth g (length g) m)) (includes (r_def r)) n Hn) as G. cbn beta in G.
+  rewrite Hn'. unfold lt. exact G.
+Qed.
+
+(* with the cycle check in place the compiler never overflows, for every grammar with distinct rule names *)
+Theorem checked_compile_never_overflows lc pv ic s : NoDup (rule_names g) ->
+  forall F, enough (inc_depth g (S (length g))) <= F -> forall i, compile_f c guard lc pv ic true g s F <> GOverflow i.
+Proof.
+  intros ND F HF i. destruct (has_cycle g) eqn:H.
+  - destruct (cycle_rejected_aux lc pv ic s F H) as [E|[n E]]; rewrite E; discriminate.
+  - apply compile_never_overflows with (rank := inc_depth g (S (length g))); [apply acyclic_ranked; assumption|exact HF].
+Qed.
+
 End Totality.
 
 (* ---- an include cycle: no fuel suffices ------------------------------------- *)
@@ -221,5 +294,18 @@ Definition cyclic : grammar := [GRule {| r_directives := [DExport]; r_name := n_
 Theorem cycle_diverges c : forall F, get_fields c F cyclic (EInclude n_A) = GFFuel.
 Proof. induction F as [|F IH]; [reflexivity|]. cbn [get_fields]. cbn. exact IH. Qed.
 
-Theorem cycle_overflows c guard lc pv s : forall F, compile_f c guard lc pv cyclic s F = GOverflow 0.
+(* without the cycle check the compiler recurses for ever on it ... *)
+Theorem cycle_overflows c guard lc pv s : forall F, compile_f c guard lc pv false false cyclic s F = GOverflow 0.
 Proof. intro F. unfold compile_f, cyclic. cbn. unfold compile_rule. cbn [r_def]. fold cyclic. rewrite cycle_diverges. reflexivity. Qed.
+
+(* ... with it, every grammar with a cycle is answered with an error *)
+Theorem cycle_rejected c guard lc pv ic g s F :
+  has_cycle g = true ->
+  compile_f c guard lc pv ic true g s F = GCycle \/ exists n, compile_f c guard lc pv ic true g s F = GBadIdent n.
+Proof.
+  intro H. unfold compile_f. destruct (if ic then find _ _ else None) as [n|]; [right; eauto|].
+  rewrite H. left. reflexivity.
+Qed.
+
+Example cyclic_has_cycle : has_cycle cyclic = true.
+Proof. reflexivity. Qed.
